@@ -529,12 +529,13 @@ func genList(t *rapid.T) ListCase {
 func TestC11(t *testing.T) {
 	loadProfiles(t)
 	defer stopRigs()
-	rec.SetRule("prefixes and compatibility are read from the shipped YAML by the harness's own reader; deployments = endpoint type multisets (every shipped profile name + auto) x health; all deployments of size 1 and (quick: a third of / thorough: all) size-2 deployments are enumerated for every prefix and both engines, size<=3 deployments, provider-native paths and paths that climb to another provider's prefix with percent-encoded dot segments are rapid-generated, including endpoints that are listed healthy but refuse connections (so that the request fails over) and the fail-over topology {own type dead, own type live, other type live}; typed recording backends tell which endpoint served. Model-listing routes under each prefix are checked against per-endpoint model sets. non-trivial = deployment containing >=1 healthy endpoint of an incompatible type; distinct by (engine, prefix, deployment, path)")
+	rec.SetRule("prefixes and compatibility are read from the shipped YAML by the harness's own reader; deployments = endpoint type multisets (every shipped profile name + auto) x health; all deployments of size 1 and (quick: a third of / thorough: all) size-2 deployments are enumerated for every prefix and both engines, size<=3 deployments, provider-native paths and paths that climb to another provider's prefix with percent-encoded dot segments are rapid-generated, including endpoints that are listed healthy but refuse connections (so that the request fails over) and the fail-over topology {own type dead, own type live, other type live}; typed recording backends tell which endpoint served. Model-listing routes under each prefix are checked against per-endpoint model sets. Sub-check 'concurrent': 8..32 clients on the prefixes of 2..3 healthy endpoints of different kinds (sometimes a foreign prefix too) send 20..60 requests each at the same time; every response is attributed to its backend and must come from a compatible type. non-trivial = deployment containing >=1 healthy endpoint of an incompatible type; distinct by (engine, prefix, deployment, path)")
 	rec.Assume("compatibility relation: type == profile owning the prefix, or auto; for the openai/openai-compatible prefixes every profile with api.openai_compatible: true")
-	if ev.Replay(t, rec, "route", runCase) || ev.Replay(t, rec, "listing", runList) {
+	if ev.Replay(t, rec, "route", runCase) || ev.Replay(t, rec, "listing", runList) || ev.Replay(t, rec, "concurrent", runConc) {
 		return
 	}
 	enumerate()
 	ev.Check(t, rec, "route", rec.Pick(600, 8000), genCase, runCase)
 	ev.Check(t, rec, "listing", rec.Pick(60, 1200), genList, runList)
+	ev.Check(t, rec, "concurrent", rec.Pick(10, 300), genConc, runConc)
 }
